@@ -1606,6 +1606,9 @@ func c07BuildResponseFn(c *core.Ctx, rule string) *flow.Func {
 
 func c07Resp(c *core.Ctx) {
 	px := "pkg/filters/proxy"
+	// buildResponse may report failure as a bool instead of an error: the constant it returns where
+	// the error of FetchPayload is known non-nil is the failing value ("" = error form)
+	failConst := ""
 	if f := c07BuildResponseFn(c, "R-C07-5"); f != nil {
 		cons := muxFuncConstruct(f)
 		fns := reach(f, 3)
@@ -1633,7 +1636,16 @@ func c07Resp(c *core.Ctx) {
 			rs := fo.Type().(*types.Signature).Results()
 			return rs.Len() == 1 && types.Identical(rs.At(0).Type(), types.Universe.Lookup("error").Type())
 		}
-		if !singleError(f) {
+		singleBool := func(g *flow.Func) bool {
+			fo := muxFuncObj(g)
+			if fo == nil {
+				return false
+			}
+			rs := fo.Type().(*types.Signature).Results()
+			return rs.Len() == 1 && types.Identical(rs.At(0).Type().Underlying(), types.Typ[types.Bool])
+		}
+		boolForm := singleBool(f)
+		if !singleError(f) && !boolForm {
 			c.Undecide("R-C07-5", cons+"|failed fetch ⇒ error, no output response", pos(c, f.Body), "buildResponse does not report failure as a single error result: this form is not followed")
 			c.Undecide("R-C07-5", cons+"|failed buildResponse ⇒ 5xx", pos(c, f.Body), "buildResponse does not report failure as a single error result: this form is not followed")
 			return
@@ -1677,12 +1689,45 @@ func c07Resp(c *core.Ctx) {
 						if id := muxIdentOf(r); id != nil && holders[vf.obj(id)] != nil {
 							retErr = true
 						}
+						if boolForm {
+							// the failing value: the same constant on every failing exit
+							k := ""
+							if tv, ok := f.Info.Types[r]; ok && tv.Value != nil {
+								k = tv.Value.ExactString()
+							}
+							if k == "" || (failConst != "" && failConst != k) {
+								c.Undecide("R-C07-5", cons+"|failed fetch ⇒ error, no output response", pos(c, ex.Ret()), "buildResponse reports failure as a bool and does not return one and the same constant where FetchPayload failed")
+								return
+							}
+							failConst, retErr = k, true
+						}
 					}
 					if !retErr {
 						bad, why = ex.State, "the error of resp.FetchPayload is swallowed (the proxy reports success for a response it could not read)"
 					}
 				}
+				if boolForm && bad == nil {
+					// the success exits (response handed over) must return the other value, or the
+					// caller cannot tell them from the failing ones
+					for _, ex := range res.Exits {
+						if ex.Kind != flow.ExitReturn || !ex.State.Is("ev:output", flow.True) {
+							continue
+						}
+						r := muxRetExpr(f, vf, ex)
+						tv, ok := f.Info.Types[r]
+						if r == nil || !ok || tv.Value == nil {
+							c.Undecide("R-C07-5", cons+"|failed fetch ⇒ error, no output response", pos(c, ex.Ret()), "buildResponse reports failure as a bool and a success exit does not return a constant")
+							return
+						}
+						if tv.Value.ExactString() == failConst {
+							bad, why = ex.State, "buildResponse returns its failing value although the response was handed to the pipeline"
+						}
+					}
+				}
 				c.Check(bad == nil && nfail > 0, "R-C07-5", cons+"|failed fetch ⇒ error, no output response", pos(c, fetch), sprintf("%d failing exits return the error without SetOutputResponse", nfail), why+map[bool]string{true: "no failing exit", false: ""}[nfail == 0], witness(bad)...)
+				if boolForm && (bad != nil || nfail == 0) {
+					return
+				}
 			}
 		}
 	}
@@ -1803,7 +1848,16 @@ func c07Resp(c *core.Ctx) {
 		var bad *flow.State
 		n := 0
 		for _, ex := range res.Exits {
-			if ex.Kind != flow.ExitReturn || !ex.State.Is("ev:built", flow.True) || muxHolderNil(f, ex.State, holders) != flow.False {
+			failedBuild := muxHolderNil(f, ex.State, holders) == flow.False
+			if failConst != "" {
+				failedBuild = false
+				for _, id := range holders {
+					if v := ex.State.Get(f.VarKey(id)); v != flow.Unknown && (v == flow.True) == (failConst == "true") {
+						failedBuild = true
+					}
+				}
+			}
+			if ex.Kind != flow.ExitReturn || !ex.State.Is("ev:built", flow.True) || !failedBuild {
 				continue
 			}
 			n++
